@@ -6,11 +6,49 @@ from .symexec import Exec, Obligation, Unsupported
 from .contract import REG
 
 
+DEPENDS = {'wordx': ['word'], 'regexp': ['word', 'wordx'], 'tm': ['word', 'wordx'], 'dfa': ['word'], 'nfa': ['word'], 'pda': ['word'], 'cfg': ['word']}
+
+
+def theories_of(c):
+    out = []
+    def add(t):
+        for d in DEPENDS.get(t, []): add(d)
+        if t not in out: out.append(t)
+    for t in c.theories: add(t)
+    return out
+
+
 def theory_axioms(c):
     ax = []
-    for th in c.theories:
+    for th in theories_of(c):
         ax += [f for (_tag, _n, f) in T.AXIOMS.get(th, [])]
     return ax
+
+
+def uf_symbols(f, acc=None, seen=None):
+    acc = set() if acc is None else acc; seen = set() if seen is None else seen
+    todo = [f]
+    while todo:
+        t = todo.pop()
+        if t.get_id() in seen: continue
+        seen.add(t.get_id())
+        if z3.is_quantifier(t): todo.append(t.body()); continue
+        if z3.is_app(t):
+            d = t.decl()
+            if d.kind() == z3.Z3_OP_UNINTERPRETED and t.num_args() > 0: acc.add(d.name())
+            todo.extend(t.children())
+    return acc
+
+
+def relevant_generated(obl, theory_ax):
+    """generated definitional axioms (set algebra, views, cardinality) are included only when their symbol occurs"""
+    seen = set(); syms = set()
+    for f in obl.hyps + [obl.goal] + theory_ax: uf_symbols(f, syms, seen)
+    out = []
+    for name, f in S.GEN_AXIOMS:
+        fs = uf_symbols(f)
+        if fs & syms: out.append(f)
+    return out
 
 
 def generate(c):
@@ -21,7 +59,7 @@ def generate(c):
     obls = ex.run()
     extra = list(X.PRODUCT_FACTS) + ex.distinct_literals()
     for o in obls: o.hyps = extra + o.hyps
-    obls += frame_obligations(c)
+    obls += frame_obligations(c) + default_obligations(c, node)
     # vacuity canary: the preconditions together with the theory must not prove False
     obls.append(Obligation(c.qualname, 'canary/pre-consistent', 'canary', extra + list(ex.entry_pc), z3.BoolVal(False), expect='not-unsat'))
     return obls, {'source_hash': h, 'lines': (node.lineno, node.end_lineno), 'loops': len(ex.loops)}
@@ -60,6 +98,21 @@ def frame_obligations(c):
     return out
 
 
+def default_obligations(c, node):
+    """default argument values are part of the behaviour callers rely on: the defaults stated in the contract must be the ones in the source"""
+    import ast
+    out = []
+    args = node.args.args; defs = node.args.defaults
+    src = {a.arg: ast.unparse(d) for a, d in zip(args[len(args) - len(defs):], defs)}
+    for prm, val in c.defaults.items():
+        same = prm in src and src[prm].replace(' ', '') == val.replace(' ', '')
+        o = Obligation(c.qualname, 'default/%s' % prm, 'frame', [], z3.BoolVal(same))
+        o.status = 'unsat' if same else 'sat'; o.backend = 'effects'; o.ms = 0
+        o.output = 'syntactic:default of %s is %s in the source, %s in the contract' % (prm, src.get(prm), val)
+        out.append(o)
+    return out
+
+
 def verify(c, timeout=10, jobs=16, keep_dir=None):
     from .smt import discharge
     t0 = time.time()
@@ -67,8 +120,33 @@ def verify(c, timeout=10, jobs=16, keep_dir=None):
         obls, info = generate(c)
     except (Unsupported, KeyError, NotImplementedError, TypeError, AssertionError, IndexError, AttributeError, z3.Z3Exception) as e:
         return {'fn': c.qualname, 'status': 'unbound', 'reason': '%s: %s' % (type(e).__name__, e), 'trace': traceback.format_exc(), 'obligations': []}
-    ax = theory_axioms(c) + [f for _n, f in S.GEN_AXIOMS]
-    discharge([o for o in obls if o.backend != 'effects'], ax, timeout=timeout, jobs=jobs, keep_dir=keep_dir)
+    ax = theory_axioms(c)
+    todo = [o for o in obls if o.backend != 'effects']
+    for o in todo: o.hyps = relevant_generated(o, ax) + o.hyps
+    discharge(todo, ax, timeout=timeout, jobs=jobs, keep_dir=keep_dir)
     failed = [o for o in obls if (o.kind != 'canary' and o.status != 'unsat') or (o.kind == 'canary' and o.status == 'unsat')]
     return {'fn': c.qualname, 'status': 'proved' if not failed else 'failed', 'obligations': obls, 'failed': failed, 'info': info,
             'wall_s': time.time() - t0}
+
+
+def verify_many(contracts, timeout=10, jobs=16, keep_dir=None):
+    """generate the obligations of all contracts, discharge them in one pool, return {key: result}"""
+    from .smt import discharge
+    t0 = time.time(); res = {}; batch = []
+    for c in contracts:
+        try:
+            obls, info = generate(c)
+        except (Unsupported, KeyError, NotImplementedError, TypeError, AssertionError, IndexError, AttributeError, z3.Z3Exception) as e:
+            res[c.key] = {'fn': c.qualname, 'status': 'unbound', 'reason': '%s: %s' % (type(e).__name__, e), 'trace': traceback.format_exc(), 'obligations': []}
+            continue
+        ax = theory_axioms(c)
+        todo = [o for o in obls if o.backend != 'effects']
+        for o in todo: o.hyps = ax + relevant_generated(o, ax) + o.hyps
+        batch += todo
+        res[c.key] = {'fn': c.qualname, 'status': None, 'obligations': obls, 'info': info}
+    discharge(batch, [], timeout=timeout, jobs=jobs, keep_dir=keep_dir)
+    for k, r in res.items():
+        if r['status'] == 'unbound': continue
+        failed = [o for o in r['obligations'] if (o.kind != 'canary' and o.status != 'unsat') or (o.kind == 'canary' and o.status == 'unsat')]
+        r['failed'] = failed; r['status'] = 'proved' if not failed else 'failed'; r['wall_s'] = time.time() - t0
+    return res
